@@ -10,7 +10,7 @@ BUDGET = {
     "quick": {"single": 220, "multi": 150, "faulty": 120, "burst": 7},
     "thorough": {"single": 6000, "multi": 6000, "faulty": 5000, "burst": 140},
 }
-REQUIRED = {"episodes.single": 100, "episodes.multi": 100, "episodes.faulty": 50, "episodes.burst": 5, "writes": 500, "calls": 500, "int.episodes": 30, "int.calls": 60}
+REQUIRED = {"episodes.single": 100, "episodes.multi": 100, "episodes.faulty": 50, "episodes.burst": 5, "writes": 500, "calls": 500, "int.episodes": 30, "int.calls": 60, "mqtt.episodes": 30, "mqtt.calls": 60}
 RULE = (
     "episodes = callers (kind of command, wait_for_reply, max_retries, timeout, priority, start offset, impersonation) x per-transmission arrival scripts from the alphabet {lost, prompt, T-eps, T, T+eps, duplicated, reply before echo, near-miss foreign packets} x gateway QoS mode x transport events; systematic single-caller walk + seeded multi-caller, faulty and 2..40-caller burst episodes. Distinct = (number of callers, QoS mode, FSM state path, per-caller outcome, fault kind) signatures; every episode has at least one send so none is trivial."
 )
